@@ -35,7 +35,7 @@ func (c14) Meta() fw.Meta {
 
 func (c14) Cases(tier string) int {
 	if tier == "thorough" {
-		return 20000
+		return 60000
 	}
 	return 500
 }
